@@ -365,6 +365,43 @@ func init() {
 						}
 					}
 				}},
+				// round 17: pages (and directories) whose names hold the text of the configured extension before the real one:
+				// the name of a page is its path without the final extension, whatever the rest looks like
+				{Name: "page-names-holding-the-extension", Exhaustive: true, N: 3, Run: func(c *core.Ctx, i int) {
+					ext := []string{".tw", ".html", ".tw.html"}[i]
+					names := []string{"plain", "news" + ext + "itter", "drafts" + ext + "/note", "a" + ext + ".b", "x" + ext, "sub/" + strings.TrimPrefix(ext, ".") + "/page", "deep/er" + ext + "/in" + ext + "x/leaf", "index.html", "tw", "t" + ext + ext + "w"}
+					files := map[string]string{"layouts/main" + ext: "<L>@reserve(\"b\")|@reserve(\"t\")</L>", "layouts/main" + ext + ".bak": "not a template @reserve(", "layouts/x" + ext + "y/wide" + ext: "<W>@reserve(\"b\")</W>"}
+					for k, n := range names {
+						lay := "~main"
+						if k%4 == 3 {
+							lay = "layouts/x" + ext + "y/wide"
+						}
+						files[n+ext] = "@use(\"" + lay + "\")@insert(\"b\")" + n + " {{ who }}@end"
+						if k%4 != 3 {
+							files[n+ext] += "@insert(\"t\", \"T\")"
+						}
+					}
+					tpl, err := loadTree(c, "c06ext", files, ext)
+					c.Nontrivial("names-holding-the-extension:" + ext)
+					if err != nil {
+						c.Violation("extension-in-name:load-failed", fmt.Sprintf("a valid tree (extension %q) whose names hold the text of the extension was rejected: %s", ext, clipS(err.Error(), 300)), map[string]any{"files": describeFiles(files)})
+						return
+					}
+					if tpl == nil {
+						return
+					}
+					for k, n := range names {
+						want := "<L>" + n + " w|T</L>"
+						if k%4 == 3 {
+							want = "<W>" + n + " w</W>"
+						}
+						got, _ := renderPage(c, tpl, n, map[string]any{"who": "w"})
+						c.Count("pages_with_the_extension_in_their_name_rendered", 1)
+						if !got.Panicked && (got.Err != nil || got.Out != want) {
+							c.Violation("extension-in-name", fmt.Sprintf("extension %q: page %q rendered %s, want %q", ext, n, got.Describe(), want), map[string]any{"files": describeFiles(files), "page": n})
+						}
+					}
+				}},
 				// pages of one loaded Template rendered one after the other without data: what the insert blocks and the layout
 				// of one render assigned is not there in the next
 				{Name: "data-less-renders-of-one-template", Exhaustive: true, N: 2, Run: func(c *core.Ctx, i int) {
